@@ -105,7 +105,19 @@ type unmarshalTextDecoder struct {
 
 func (d *unmarshalTextDecoder) FromDom(vp unsafe.Pointer, node Node, ctx *context) error {
 	if node.IsNull() {
-		*(*unsafe.Pointer)(vp) = nil
+		/* null never reaches UnmarshalText; as in encoding/json it only resets
+		 * values that can be nil. d.typ is either an interface type or the
+		 * pointer type whose element lives at vp. */
+		if d.typ.Kind() != reflect.Ptr {
+			*(*unsafe.Pointer)(vp) = nil
+			return nil
+		}
+		switch d.typ.Pack().Elem().Kind() {
+		case reflect.Ptr, reflect.Map:
+			*(*unsafe.Pointer)(vp) = nil
+		case reflect.Slice:
+			*(*rt.GoSlice)(vp) = rt.GoSlice{}
+		}
 		return nil
 	}
 
